@@ -311,6 +311,7 @@ fn add_stats(rep: &mut Report, s: &Stats) {
     rep.add("lsm.seek-compactions-recorded-according-to-the-model", s.seek_compactions_by_model);
     rep.add("lsm.flush-levels-checked-against-model", s.flush_levels_checked);
     rep.add("lsm.persisted-state-relation-checked-on-real-states", s.persist_relation_checked);
+    rep.add("lsm.snapshot-lists-checked-against-the-model-invariant", s.snapshot_lists_checked);
     rep.add("lsm.real-states-whose-directory-is-exact", s.persist_directory_exact);
     rep.add("lsm.flushes-placed-below-level-0", s.flushes_below_level0);
     rep.add("lsm.closes-during-a-table-compaction", s.closes_during_table_compaction);
